@@ -1,6 +1,7 @@
 import ExponaxModel.Proofs.ICAlgebra
 import ExponaxModel.Model.Guards
 import ExponaxModel.Proofs.ICGenEq
+import ExponaxModel.Proofs.ICGen2Eq
 /-
 C18 — initial-condition generators honour their documented contract (deterministic post-processing;
 the random draws are inputs of the model — `jax.random` is not modelled).
@@ -71,5 +72,155 @@ theorem C18_generated_truncated_series (D cutoff : ℕ) (orange : ℂ × ℂ) (s
       = IC.normalizeIc (HasIsZero.isZero orange.1 && HasIsZero.isZero orange.2) so mo
           (IC.truncatedSeries D N cutoff offset noise) :=
   RandomTruncatedFourierSeries_call_complex D cutoff orange so mo N noise offset
+
+
+/-! ### the remaining generators, REGENERATED from `ic/*.py` with every random draw as an explicit input
+(`harness/translate_ic2.py` → `Generated/ICGen2.lean`; keys are abstract, `split` is a parameter): spectrum shaping of the
+Gaussian random field (noise × |k|^(−e/2), mean mode untouched) and of diffused noise (noise × exp(−ν(2π/L)²|k|²)), with the
+normalisation flags reaching `normalize_ic` unchanged; a discontinuity block takes exactly two values; sine-wave value formula;
+`one_complement` = 1 − blob; for the three generators with a function form the sampled form IS the function form on the
+regenerated grid; and the multi-channel wrapper's function form equals its sampled form channel by channel because both code paths
+hand sub-generator c the key `(split key n)[c]` -/
+
+open Exponax.Gen.IC2 in
+theorem C18_gaussian_random_field_contract :
+    ∀ {Key : Type} (wn : ℕ → Key → Array ℂ) (D N : ℕ) (L e : ℂ) (zm so mo : Bool)
+      (key : Key),
+      1 ≤ D →
+        0 < N →
+          GaussianRandomField_call wn (GaussianRandomField_init D L e zm so mo) N key =
+              IC.normalizeIc zm so mo (Transform.irfftnM D N (IC2.grfSpectrum D N L e (wn N key))) ∧
+            ∀ h < Layout.numModes D N,
+              (IC2.grfSpectrum D N L e (wn N key)).getD h 0 =
+                (Transform.rfftnM D N (wn N key)).getD h 0 * if h = 0 then 1 else HasRpow.rpow (IC2.wnNorm D N L h) (-e / 2) :=
+  @Exponax.Gen.IC2.GaussianRandomField_contract
+
+open Exponax.Gen.IC2 in
+theorem C18_diffused_noise_contract :
+    ∀ {Key : Type} (wn : ℕ → Key → Array ℂ) (D N : ℕ) (L ν : ℂ) (zm so mo : Bool) (key : Key),
+      1 ≤ D →
+        0 < N →
+          DiffusedNoise_call wn (DiffusedNoise_init D L ν zm so mo) N key =
+              IC.normalizeIc zm so mo (Transform.irfftnM D N (IC2.diffusedSpectrum D N L ν (wn N key))) ∧
+            (∀ h < Layout.numModes D N,
+                (IC2.diffusedSpectrum D N L ν (wn N key)).getD h 0 =
+                  Complex.exp (-(ν * (2 * ↑Real.pi / L * (2 * ↑Real.pi / L)) * ↑(Layout.normSq (Layout.wnFlat D N h)))) *
+                    (Transform.rfftnM D N (wn N key)).getD h 0) ∧
+              ∀ (h : ℕ), IC2.diffusionKernel D N L ν h ≠ 0 :=
+  @Exponax.Gen.IC2.DiffusedNoise_contract
+
+open Exponax.Gen.IC2 in
+theorem C18_discontinuity_two_values :
+    ∀ {K : Type} [inst : Field K] [inst_1 : HasLtB K] [HasSqrt K] [HasAbs K]
+      (self : Discontinuity K) (x : List (Array K)),
+      ∀ j < IC2.gridPoints x,
+        (Discontinuity_call self x).getD j 0 =
+          if IC2.inBox self.lower_limits self.upper_limits x j = true then self.value else 0 :=
+  @Exponax.Gen.IC2.Discontinuity_two_values
+
+open Exponax.Gen.IC2 in
+theorem C18_sine_waves_value :
+    ∀ {K : Type} [inst : Field K] [inst_1 : HasLtB K] [inst_2 : HasSqrt K] [inst_3 : HasAbs K]
+      [inst_4 : HasSin K] [inst_5 : HasPi K],
+      Gen.ICGen.AbsLaw K →
+        ∀ (self : SineWaves1d K) (x : Array K),
+          SineWaves1d_call self x =
+              IC.normalizeIc false self.std_one self.max_one
+                (IC2.sineSum self.domain_extent self.amplitudes self.wavenumbers self.phases self.offset x) ∧
+            ∀ j < x.size,
+              (IC2.sineSum self.domain_extent self.amplitudes self.wavenumbers self.phases self.offset x).getD j 0 =
+                (List.map (fun t ↦ t.1 * HasSin.sin (t.2.1 * (2 * HasPi.pi / self.domain_extent) * x.getD j 0 + t.2.2))
+                      (self.amplitudes.zip (self.wavenumbers.zip self.phases))).sum +
+                  self.offset :=
+  @Exponax.Gen.IC2.SineWaves1d_contract
+
+open Exponax.Gen.IC2 in
+theorem C18_gaussian_blob_one_complement :
+    ∀ {K : Type} [inst : Field K] [inst_1 : HasExp K] (self : GaussianBlob K)
+      (x : List (Array K)) (j : ℕ),
+      self.position.length = x.length →
+        (∀ a ∈ x, a.size = IC2.gridPoints x) →
+          j < IC2.gridPoints x →
+            (GaussianBlob_call
+                    { position := self.position, covariance := self.covariance,
+                      priv_inv_covariance := self.priv_inv_covariance, one_complement := true }
+                    x).getD
+                j 0 =
+              1 -
+                (GaussianBlob_call
+                      { position := self.position, covariance := self.covariance,
+                        priv_inv_covariance := self.priv_inv_covariance, one_complement := false }
+                      x).getD
+                  j 0 :=
+  @Exponax.Gen.IC2.GaussianBlob_one_complement
+
+open Exponax.Gen.IC2 in
+theorem C18_discontinuities_sampled_is_function_form :
+    ∀ {Key K : Type} [inst : Field K] [inst_1 : HasLtB K]
+      [inst_2 : HasSqrt K] [inst_3 : HasAbs K] [inst_4 : Inhabited Key] (split : Key → ℕ → List Key)
+      (d1 d2 dv : Key → K → K → K) (self : RandomDiscontinuities K) (N : ℕ) (key : Key),
+      RandomDiscontinuities_call split d1 d2 dv self N key =
+        Discontinuities_call (RandomDiscontinuities_gen_ic_fun split d1 d2 dv self key)
+          (ext_make_grid self.num_spatial_dims self.domain_extent N self.indexing) :=
+  @Exponax.Gen.IC2.RandomDiscontinuities_sampled_eq_function_form
+
+open Exponax.Gen.IC2 in
+theorem C18_sine_waves_sampled_is_function_form :
+    ∀ {Key K : Type} [inst : Field K] [inst_1 : HasLtB K] [inst_2 : HasSqrt K]
+      [inst_3 : HasAbs K] [inst_4 : HasSin K] [inst_5 : HasPi K] [inst_6 : Inhabited Key] (split : Key → ℕ → List Key)
+      (da dp : Key → ℕ → K → K → List K) (doff : Key → K → K → K) (self : RandomSineWaves1d K) (N : ℕ) (key : Key),
+      RandomSineWaves1d_call split da dp doff self N key =
+        SineWaves1d_call (RandomSineWaves1d_gen_ic_fun split da dp doff self key)
+          ((ext_make_grid self.num_spatial_dims self.domain_extent N self.indexing).getD 0 #[]) :=
+  @Exponax.Gen.IC2.RandomSineWaves1d_sampled_eq_function_form
+
+open Exponax.Gen.IC2 in
+theorem C18_gaussian_blobs_sampled_is_function_form :
+    ∀ {Key K : Type} [inst : Field K] [inst_1 : HasExp K]
+      [inst_2 : Inhabited Key] (split : Key → ℕ → List Key) (dp dv : Key → ℕ → K → K → List K)
+      (inv : List (List K) → List (List K)) (self : RandomGaussianBlobs K) (N : ℕ) (key : Key),
+      RandomGaussianBlobs_call split dp dv inv self N key =
+        GaussianBlobs_call (RandomGaussianBlobs_gen_ic_fun split dp dv inv self key)
+          (ext_make_grid self.num_spatial_dims self.domain_extent N self.indexing) :=
+  @Exponax.Gen.IC2.RandomGaussianBlobs_sampled_eq_function_form
+
+open Exponax.Gen.IC2 in
+theorem C18_multi_channel_function_form_is_sampled_form :
+    ∀ {Key K : Type} (split : Key → ℕ → List Key)
+      (self : RandomMultiChannelICGenerator Key K) (N : ℕ) (key : Key) (x : List (Array K)),
+      (∀ g ∈ self.ic_generators, ∀ (k : Key), g.call N k = g.gen_ic_fun k x) →
+        MultiChannelIC_call (RandomMultiChannelICGenerator_gen_ic_fun split self key) x =
+          RandomMultiChannelICGenerator_call split self N key :=
+  @Exponax.Gen.IC2.multi_channel_function_form_eq_sampled
+
+open Exponax.Gen.IC2 in
+theorem C18_multi_channel_channel_count :
+    ∀ {Key K : Type} (split : Key → ℕ → List Key)
+      (self : RandomMultiChannelICGenerator Key K) (N : ℕ) (key : Key),
+      (split key self.ic_generators.length).length = self.ic_generators.length →
+        (RandomMultiChannelICGenerator_call split self N key).length = self.ic_generators.length ∧
+          (RandomMultiChannelICGenerator_gen_ic_fun split self key).initial_conditions.length = self.ic_generators.length :=
+  @Exponax.Gen.IC2.multi_channel_channel_count
+
+open Exponax.Gen.IC2 in
+theorem C18_generated_draw_sites :
+    generated_draw_sites =
+      [("GaussianRandomField.__init__", ["white_noise : self.white_noise = WhiteNoise(num_spatial_dims)"]),
+        ("GaussianRandomField.__call__", ["white_noise : self.white_noise(num_points, key=key)"]),
+        ("DiffusedNoise.__init__", ["white_noise : self.white_noise = WhiteNoise(num_spatial_dims)"]),
+        ("DiffusedNoise.__call__", ["white_noise : self.white_noise(num_points, key=key)"]),
+        ("RandomDiscontinuities.gen_one_ic_fn",
+          ["draw_lim_1 : lim_1 = jr.uniform(key_1, (), minval=0.0, maxval=self.domain_extent)",
+            "draw_lim_2 : lim_2 = jr.uniform(key_2, (), minval=0.0, maxval=self.domain_extent)",
+            "draw_value : value = jr.uniform(key, (), minval=self.value_range[0], maxval=self.value_range[1])"]),
+        ("RandomSineWaves1d.gen_ic_fun",
+          ["draw_amplitudes : amplitudes = jr.uniform(amplitude_key, shape=(self.cutoff,), minval=self.amplitude_range[0], maxval=self.amplitude_range[1])",
+            "draw_phases : phases = jr.uniform(phase_key, shape=(self.cutoff,), minval=self.phase_range[0], maxval=self.phase_range[1])",
+            "draw_offset : offset = jr.uniform(offset_key, shape=(), minval=self.offset_range[0], maxval=self.offset_range[1])"]),
+        ("RandomGaussianBlobs.gen_blob",
+          ["draw_position : position = jr.uniform(position_key, shape=(self.num_spatial_dims,), minval=self.position_range[0] * self.domain_extent, maxval=self.position_range[1] * self.domain_extent)",
+            "draw_variances : variances = jr.uniform(variance_key, shape=(self.num_spatial_dims,), minval=self.variance_range[0] * self.domain_extent, maxval=self.variance_range[1] * self.domain_extent)"])] :=
+  @Exponax.Gen.IC2.generated_draw_sites_pinned
+
 
 end Exponax
